@@ -148,6 +148,24 @@ Theorem C09_range_total_single : forall (H : list N -> list N),
 Proof. exact single_total. Qed.
 Print Assumptions C09_range_total_single.
 
+(* ... and the two-edge branch (with it: every input shape): genuine proof nodes, non-empty keys
+   of one length for trie, run and start key => no panic value whatever the run, the start key
+   and the subset of proof nodes present: not the "invalid node" / "it shouldn't happen" panics
+   of unsetInternal / unset (DESIGN.md section 10 item 10), no failed type assertion, no
+   uncomparable interface comparison, not the hasher, not hasRightElement *)
+Theorem C09_range_total : forall (H : list N -> list N),
+  (forall x, length (H x) = 32%nat) ->
+  forall (db : pdb) (P : list N -> Prop),
+  (forall e b, P e -> db_get db (H e) = Some b -> b = e) ->
+  forall t r, can t -> content_ok t -> hash_root H t = Some r -> (forall e, genuine H t e -> P e) ->
+  forall first keys values Lb,
+    keys_fixed t Lb -> (0 < Lb)%nat -> N.of_nat Lb < 2 ^ 30 ->
+    length first = Lb -> forallb byteb first = true ->
+    Forall (fun k => length k = Lb /\ forallb byteb k = true) keys -> Forall small values ->
+    no_panic (verify_range_proof H r first keys values (Some db)).
+Proof. exact general_total. Qed.
+Print Assumptions C09_range_total.
+
 (* OUTSIDE the guard (1): an empty key in the no-proof branch makes the Go code panic
    (StackTrie.Update -> writeHexKey: dst[2*len(key)-1]); full statement refuted:
    "verification never panics on any keys". Reproduced on the real code. *)
